@@ -28,8 +28,10 @@ def run(ctx):
                 jobs.append((lpc, [fam, alg, lpcmax if main else 12], "%s" % be))
     # the masked (and C++ masked) entry points again under other share configurations: their init/finalize paths convert between share counts
     triples = [t for t in build.ALL_TRIPLES if t != build.DEFAULT_TRIPLE] if ctx.thorough else [(2, 1, 2), (3, 2, 3), (4, 3, 4), (3, 3, 3), (4, 4, 4)]
-    for be in ("asm", "c64", "c32"):
-        for tr in triples:
+    # (the direct-XOR and generic cores have branches of their own in the conversions between share counts)
+    pairs = [(k, d, k) for k in (2, 3, 4) for d in range(1, k + 1)]
+    for be in ("asm", "c64", "c32", "dxor", "generic"):
+        for tr in (triples if be in ("asm", "c64", "c32") else (pairs if ctx.thorough else [(3, 1, 3), (2, 1, 2), (4, 1, 4), (3, 2, 3), (4, 3, 4)])):
             lib = build.build_lib(be, tr)
             ctx.configs.append(lib["desc"])
             exe = build.build_prog("c01", ["harness/c01.c", "harness/cpp_shim.cpp", "harness/sysrand.c", "ref/ref.c"], lib)
